@@ -18,7 +18,7 @@ from vf.xmodel import Schema, Rop, Shadow, Bound
 
 SHARDS = {'quick': 16, 'thorough': 64}
 TIMEOUT = {'quick': 1500, 'thorough': 7200}
-MUST_HIT = ['Call.python-function', 'Call.python-bridge', 'Call.python-class-operation',
+MUST_HIT = ['Call.name-differs-in-case-only-function', 'Call.name-differs-in-case-only-external-entity', 'Call.python-function', 'Call.python-bridge', 'Call.python-class-operation',
             'Call.derived-attribute-early-bare-return', 'Scope.local-named-like-parameter', 'Call.argument-order-observable', 'Call.earlier-component-rechecked', 'Call.builtin-external-entity', 'Call.legacy-keyword-bridge', 'Call.legacy-keyword-transform', 'Call.python-instance-operation', 'Call.derived-attribute', 'Call.derived-attribute-outside-state', 'Call.enumerator', 'Call.constant',
             'Call.nested', 'Call.recursive', 'Call.bare-return', 'Call.no-return', 'Call.in-where-clause',
             'Call.in-loop-condition', 'Scope.caller-variable-kept', 'State.compared']
@@ -163,6 +163,17 @@ class ModelGen(object):
             self.elems.insert(r.randint(1, len(self.elems)), twin)
             fn_twin = Elem('f', b0.name, r.choice((INT, BOOL)), [('n', INT)])
             self.elems.insert(r.randint(1, len(self.elems)), fn_twin)
+            # ... and an external entity whose key letters differ from EX only in letter case
+            if r.random() < 0.5:
+                CASE_TWINS['external-entity'] = CASE_TWINS.get('external-entity', 0) + 1
+                self.elems.insert(r.randint(1, len(self.elems)), Elem('b', b0.name, r.choice((INT, BOOL)), [], 'Ex'))
+        fns = [x for x in self.elems if x.kind == 'f' and x.name.startswith('fn')]
+        if fns and r.random() < 0.5:
+            # names are case sensitive: Fn3 is another function than fn3
+            CASE_TWINS['function'] = CASE_TWINS.get('function', 0) + 1
+            f0 = r.choice(fns)
+            self.elems.insert(r.randint(1, len(self.elems)),
+                              Elem('f', f0.name.capitalize(), r.choice((INT, STR)), [('n', INT)]))
         for i, e in enumerate(self.elems):
             if e.body is None:
                 e.body = self.body(e, i)
@@ -416,7 +427,7 @@ class ModelGen(object):
                 d.functions.append((bp.Callable_(e.name, TYNAME[e.ret], [(pn, TYNAME[pt]) for pn, pt in e.params],
                                                  e.text), 'pkg'))
         d.ees = []
-        for owner, name in (('EX', 'External'), ('EY', 'Second')):
+        for owner, name in (('EX', 'External'), ('EY', 'Second'), ('Ex', 'Third')):
             brgs = [bp.Callable_(e.name, TYNAME[e.ret], [(pn, TYNAME[pt]) for pn, pt in e.params], e.text)
                     for e in self.elems if e.kind == 'b' and e.owner == owner]
             d.ees.append((name, owner, brgs, 'pkg'))
@@ -425,6 +436,9 @@ class ModelGen(object):
             items.append((name, TYNAME[ty], {True: 'true', False: 'false'}.get(v, str(v)) if ty == BOOL else str(v)))
         d.constants = [('Consts', items, 'pkg')]
         return d
+
+
+CASE_TWINS = {}
 
 
 class CallRef(object):
@@ -756,5 +770,7 @@ def run(ctx):
         ctx.hit('Call.legacy-keyword-' + k, v)
     for k, v in DER_FORMS.items():
         ctx.hit('Call.derived-attribute-' + k, v)
+    for k, v in CASE_TWINS.items():
+        ctx.hit('Call.name-differs-in-case-only-' + k, v)
     ctx.hit('Call.argument-order-observable', ARG_ORDER[0])
     ctx.hit('Scope.local-named-like-parameter', SHADOWED[0])
